@@ -435,6 +435,7 @@ struct SmSession : public vw::Session {
       // C20: every block that ever reported full validity (and is neither invalidated by the altchain nor
       // removed) must be activatable again; afterwards switch back
       auto X = nameOfInst(I);
+      track(X);  // blocks at the fully-valid level right now belong to the sweep too (a sweep may be the first op after begin)
       std::vector<std::string> ids(ever[X].begin(), ever[X].end());
       std::sort(ids.begin(), ids.end(), idLess);
       std::string orig = I.tip();
